@@ -147,6 +147,11 @@ struct IListRunner {
 		std::vector<long long> it, rev;
 		int guard = 0;
 		for(auto i = c.begin(); i != c.end(); ++i) { it.push_back((*i)->id); if(++guard > 10000) { it.push_back(-5); break; } }
+		{	// the post-increment form walks the same sequence and returns the position it left
+			std::vector<long long> it2; int g2 = 0;
+			for(auto i = c.begin(); i != c.end(); ) { auto was = i++; it2.push_back((*was)->id); if(++g2 > 10000) break; }
+			if(it2 != it) it.push_back(-6);
+		}
 		guard = 0;
 		for(INode *p = c.back(); p; p = p->hook.previous) { rev.push_back(p->id); if(++guard > 10000) { rev.push_back(-5); break; } }
 		return obs_json(-1, c.empty() ? 1 : 0, c.front() ? c.front()->id : -1, c.back() ? c.back()->id : -1, {}, it, rev);
